@@ -53,7 +53,9 @@ TractOps == {Op("parse", c, k, TNone) : c \in BOOLEAN, k \in TKwUsed}
             \cup {Op("preprocess", c, [clean |-> x, depth |-> 0], TNone) : c \in BOOLEAN, x \in {NA, "T", "F"}}
             \cup {Op("config", TRUE, TNone, a) : a \in TA}
 PlssOps == {Op("parse", c, k, PNone) : c \in BOOLEAN, k \in PKwUsed}
-           \cup {Op("parse_tracts", TRUE, [PNone EXCEPT !.clean = x], PNone) : x \in {NA, "T", "F"}}
+           \* parse_tracts(config=..., clean_qq=...): the config argument (here: 'break_halves', carried in the lay slot)
+           \* re-configures the tracts for good, the keyword holds for this call only
+           \cup {Op("parse_tracts", TRUE, [PNone EXCEPT !.clean = x], [PNone EXCEPT !.lay = c]) : x \in {NA, "T", "F"}, c \in {NA, "bh"}}
            \cup {Op("preprocess", c, [PNone EXCEPT !.ns = x], PNone) : c \in BOOLEAN, x \in {NA, "s"}}
            \cup {Op("config", TRUE, PNone, a) : a \in PAUsed}
            \cup {Op("sort", TRUE, PNone, PNone), Op("filter", TRUE, PNone, PNone), Op("filter", FALSE, PNone, PNone)}
@@ -78,14 +80,19 @@ TractApply(s, op) ==
 \* pp: what the committed preprocessed text was made with (default N/S; whether the OCR scrubber ran - a committed
 \* preprocess() without that keyword re-reads the text without it)
 PlssParsed(a, k) == [A |-> a, res |-> [a |-> a, k |-> k], pp |-> [ns |-> PEff(a, k).ns, ocr |-> k.ocr],
-                     tq |-> IF PEff(a, k).pq = "T" THEN "own" ELSE "unparsed", ord |-> "orig", drop |-> "F"]
+                     tq |-> IF PEff(a, k).pq = "T" THEN "own" ELSE "unparsed", ord |-> "orig", drop |-> "F",
+                     \* tc: what parse_tracts(config=...) has written into the tracts' own settings
+                     tc |-> [bh |-> NA, clean |-> NA]]
 PlssNew(a) == PlssParsed(a, PNone)                  \* __init__ parses with the attributes alone
 PlssApply(s, op) ==
   CASE op.name = "parse" ->
          IF ~op.commit THEN s
          ELSE IF Fault = "commit_keeps_order" THEN [PlssParsed(s.A, op.kw) EXCEPT !.ord = s.ord]
          ELSE PlssParsed(s.A, op.kw)
-    [] op.name = "parse_tracts" -> [s EXCEPT !.tq = IF op.kw.clean = NA THEN "own" ELSE op.kw.clean]
+    [] op.name = "parse_tracts" -> [s EXCEPT !.tq = IF op.kw.clean = NA THEN "own" ELSE op.kw.clean,
+                                             !.tc = [bh |-> IF op.cfg.lay # NA THEN "T" ELSE s.tc.bh,
+                                                     clean |-> IF Fault = "kw_written_to_tracts" /\ op.cfg.lay # NA /\ op.kw.clean # NA
+                                                               THEN op.kw.clean ELSE s.tc.clean]]
     [] op.name = "preprocess" -> IF ~op.commit THEN s ELSE [s EXCEPT !.pp = [ns |-> Ov(s.A.ns, op.kw.ns), ocr |-> NA]]
     [] op.name = "config" -> [s EXCEPT !.A = op.cfg]
     [] op.name = "sort" -> [s EXCEPT !.ord = "sorted"]
@@ -125,6 +132,9 @@ Replaces == Len(hist) > 1 /\ LastOp.name = "parse" /\ LastOp.commit =>
 \* ... and therefore equals what a fresh object with the final settings gives
 FreshEquivalent == Len(hist) > 1 /\ LastOp.name = "parse" /\ LastOp.commit =>
               Apply(kind, New(kind, sym.A), LastOp) = sym
+
+\* a keyword of parse_tracts() is for that call: it is not written into the tracts' own settings
+KeywordOfParseTractsDoesNotStick == kind = "plss" => sym.tc.clean = NA
 
 EmitCase == (EmitCases /\ Len(hist) = MaxOps + 1) => PrintT(<<"CASE", ToJson([kind |-> kind, ops |-> hist])>>)
 =============================================================================
